@@ -3,9 +3,14 @@ _OBL = ["Carquet.Properties.C02." + t for t in [
     "C02_batch_rows_aligned", "C02_batches_concat_eq_column", "C02_bitmap_polarity",
     "C02_projection_by_name_eq_by_index", "C02_returned_buffers_alive", "C02_model_fuel_sufficient",
     "C02_regression_F4", "C02_regression_F4_cross_page", "C02_regression_F5", "C02_regression_F28",
+    "C02_regression_F63",
 ]]
 _RULE = ("cursor: files written by the real writer (INT32/INT64/DOUBLE/BYTE_ARRAY/BOOLEAN, REQUIRED/OPTIONAL, "
          "1..6 pages per chunk = one write_batch per page with page_size 1, confirmed by walking the page headers; "
+         "data pages WITHOUT values (F63; the real writer never emits one, so they are spliced into the written file: header "
+         "by carquet's own parquet_write_page_header, footer re-serialised by parquet_write_file_metadata) at the head / in "
+         "the middle / at the end of a chunk, one or two in a row, in a quarter of the random files and in directed and "
+         "exhaustive scopes; "
          "1..3 columns x 1..3 row groups, UNCOMPRESSED/SNAPPY; null patterns none/all/random/alternating/sparse/dense; "
          "optional CRC-damaged page) x histories read k|skip k|has|rem|recreate (k incl. 0, negative, page-crossing, "
          "> remaining, > 1024) on fread/mmap/buffer; quick: all histories of length <= 3 (k in 0..4) on one two-page "
@@ -31,7 +36,7 @@ PART = {
       "built with -fopenmp (prefetch phase compiled in), little-endian host",
     ],
     trusted_base=["carquet's own writer and thrift page-header parser as used by harness/ops_cursor.c to build "
-                  "files and determine the paging"],
+                  "files and determine the paging (files with empty pages: also its page-header and footer serialisers)"],
     timeout=3000,
   ),
   "C03": dict(
@@ -48,7 +53,7 @@ PART = {
 
 # what the check delivers, in the component builder's words
 PART['C02'].update(
-    text="column reader and batch reader consumption state machines modelled exactly from 'a page has been decoded' onwards and proved to refine an index cursor over the concatenated rows for all chunks, pagings and op histories (read k/skip k/has_next/remaining/re-create); skip exact; batches aligned, concatenation = column content, bitmap polarity, projection by name = by index; byte-array page buffers alive until the next call (heap log). Theorems are about the code with fixes F4, F5, F28; the pinned behaviour is refuted by kernel-checked counterexamples replayed on the real code",
+    text="column reader and batch reader consumption state machines modelled exactly from 'a page has been decoded' onwards and proved to refine an index cursor over the concatenated rows for all chunks, pagings and op histories (read k/skip k/has_next/remaining/re-create); skip exact; batches aligned, concatenation = column content, bitmap polarity, projection by name = by index; byte-array page buffers alive until the next call (heap log). Chunks may contain pages without rows (F63: the page-load loop of carquet_read_next_page steps over them). Theorems are about the code with fixes F4, F5, F28, F63; the pinned behaviour is refuted by kernel-checked counterexamples replayed on the real code",
     level_note='Lean kernel; translator (skip chunk size, allocation cap); harness on files written by the real writer',
     technique='Lean 4 refinement proof (abstraction invariant over pending rows, induction on op histories / loop fuel) + line-protocol correspondence of whole histories against the C reader in three I/O modes under ASan')
 PART['C03'].update(
